@@ -100,10 +100,27 @@ def _alphabet(ctx, variant=0):
     for s, v, m, ver in itertools.product(schemes, values, meanings, versions):
         for cls in ('code', 'concept'):
             o = Code(v, s, m, ver) if cls == 'code' else CodedConcept(v, s, m, ver)
+            if cls == 'concept' and variant % 2 == 1:
+                # odd alphabets: every concept has been written to bytes, read back (raw elements, padded strings) and
+                # converted with from_dataset(copy=False) - all relations must hold for such objects too
+                o = _through_file(o)
             objs.append(({'scheme': s, 'value': v, 'meaning': m, 'version': ver, 'cls': cls, 'variant': variant}, o))
+    ctx.hist('alphabet_concepts', 'through a file' if variant % 2 == 1 else 'in memory', len(objs) // 2)
     alias = {('SRT', old): ('SCT', new)}
     retired = [[v, srt[v]] for v in values if v in srt]
     return objs, alias, retired
+
+
+def _through_file(c):
+    import pydicom
+    from pydicom.dataset import Dataset
+    from highdicom.sr.coding import CodedConcept
+    outer = Dataset()
+    outer.ConceptNameCodeSequence = [c]
+    buf = io.BytesIO()
+    pydicom.dcmwrite(buf, outer, implicit_vr=(len(c.value) % 2 == 0), little_endian=True)
+    buf.seek(0)
+    return CodedConcept.from_dataset(pydicom.dcmread(buf, force=True).ConceptNameCodeSequence[0], copy=False)
 
 
 def _okey(alias, d):
@@ -1016,8 +1033,10 @@ def replay(ctx, case):
     sub = type(ctx)(ctx.prop, ctx.tier, ctx.seed, 1, ctx.driver)
 
     def mk(d):
-        return Code(d['value'], d['scheme'], d['meaning'], d['version']) if d['cls'] == 'code' else \
-            CodedConcept(d['value'], d['scheme'], d['meaning'], d['version'])
+        if d['cls'] == 'code':
+            return Code(d['value'], d['scheme'], d['meaning'], d['version'])
+        c = CodedConcept(d['value'], d['scheme'], d['meaning'], d['version'])
+        return _through_file(c) if d.get('variant', 0) % 2 == 1 else c
     what = case.get('what')
     if what in ('pair', 'symm', 'meaning', 'setLen2', 'ne'):
         a, b = mk(case['a']), mk(case['b'])
